@@ -72,9 +72,11 @@ section Evaluator
 variable {R : Read Obj → Prop} {N : String → Prop} {H : σ → Prop}
 variable (h : Host σ Obj) (locals globals : Env Obj)
 
-/-- Every effectful host operation preserves the host-side invariant `H`. -/
+/-- Every effectful host operation preserves the host-side invariant `H` — `getattr` only for PUBLIC names: the
+    proofs below must show, at each of the evaluator's two `getattr` call sites, that the name it passes does not
+    start with an underscore (an evaluator that handed an underscore name to the host could not use this field). -/
 structure HostOK (h : Host σ Obj) (H : σ → Prop) : Prop where
-  getattr : ∀ a n t, H t → H (h.getattr a n t).2
+  getattr : ∀ a n, ¬ (n.startsWith "_" = true) → ∀ t, H t → H (h.getattr a n t).2
   call : ∀ a b t, H t → H (h.call a b t).2
   getitem : ∀ a b t, H t → H (h.getitem a b t).2
   neg : ∀ a t, H t → H (h.neg a t).2
@@ -120,6 +122,8 @@ theorem pres_getValues (H : σ → Prop) (ls : LogSites R N locals globals) (vs 
     unfold getValues
     exact Pres.bind (pres_getValue H ls v) fun _ => Pres.bind ih fun _ => Pres.pure _
 
+theorem offset_public : ¬ ("offset".startsWith "_" = true) := by decide +kernel
+
 theorem pres_getMember (hk : HostOK h H) (ls : LogSites R N locals globals) (a : Obj) (m : SVal Obj) :
     Pres R N H (getMember h a m) := by
   unfold getMember
@@ -134,12 +138,12 @@ theorem pres_getMember (hk : HostOK h H) (ls : LogSites R N locals globals) (a :
         · exact Pres.pure _
         · split
           · exact Pres.pure _
-          · exact Pres.bind (Pres.logRead (ls.member a name hn)) fun _ => Pres.lift (hk.getattr _ _)
+          · exact Pres.bind (Pres.logRead (ls.member a name hn)) fun _ => Pres.lift (hk.getattr _ _ hn)
   · exact Pres.throw _
   · rename_i o
     exact Pres.bind (Pres.lift (hk.fmt _)) fun _ =>
       Pres.bind (Pres.logRead (ls.offset o)) fun _ =>
-      Pres.bind (Pres.lift (hk.getattr _ _)) fun _ => Pres.throw _
+      Pres.bind (Pres.lift (hk.getattr _ _ offset_public)) fun _ => Pres.throw _
 
 theorem pres_expandArgs (_hk : HostOK h H) (ls : LogSites R N locals globals) (es : List Bool) (vs : List (SVal Obj)) :
     Pres R N H (expandArgs h locals globals es vs) := by
@@ -221,5 +225,378 @@ theorem Env.find_some_mem_keys {Obj : Type} (e : Env Obj) (n : String) (o : Obj)
     split at hf
     · rename_i hk; simp [hk]
     · simp only [List.map_cons, List.mem_cons]; exact Or.inr (ih hf)
+
+end GtModel.Expr
+
+/-! ### the recording ("spy") host: what the HOST is asked, as opposed to what the evaluator writes into its own log
+
+  `attrReads` / `namesResolved` are a log the evaluator keeps itself (two `logRead` sites in `getMember`).  A statement
+  about that log alone would also hold for an evaluator that passes an underscore name to `h.getattr` and simply does
+  not log it.  `spy h` closes that gap: it is `h` over the state `σ × List String`, and its `getattr` — the only way
+  the evaluator can read an attribute — appends every name it is asked for, whoever asks.  The theorems about
+  `eval (spy h)` therefore speak about the host calls themselves. -/
+namespace GtModel.Expr
+
+variable {σ Obj : Type}
+
+/-- run a host operation of `h` on the first component, keep the recorded names -/
+@[inline] def spyOp {α : Type} (op : HRes σ α) : HRes (σ × List String) α := fun t =>
+  match op t.1 with
+  | (r, s') => (r, (s', t.2))
+
+/-- The recording wrapper of a host: `getattr` appends the requested name to the second component of the state;
+    nothing else touches it. -/
+def spy (h : Host σ Obj) : Host (σ × List String) Obj where
+  ofInt := h.ofInt
+  ofFloat := h.ofFloat
+  ofStr := h.ofStr
+  ofBool := h.ofBool
+  mkColl := h.mkColl
+  getattr := fun a n t =>
+    match h.getattr a n t.1 with
+    | (r, s') => (r, (s', t.2 ++ [n]))
+  call := fun a b => spyOp (h.call a b)
+  getitem := fun a b => spyOp (h.getitem a b)
+  neg := fun a => spyOp (h.neg a)
+  inv := fun a => spyOp (h.inv a)
+  binop := fun s a b => spyOp (h.binop s a b)
+  truth := fun a => spyOp (h.truth a)
+  fmt := fun a => spyOp (h.fmt a)
+  isReflective := h.isReflective
+  isStrType := h.isStrType
+  isStrInst := h.isStrInst
+  safeFn := h.safeFn
+  mkPartial := h.mkPartial
+
+/-- every name recorded by the spy is public -/
+def SpyPub (t : σ × List String) : Prop := ∀ n ∈ t.2, ¬ (n.startsWith "_" = true)
+
+theorem spyOp_snd {α : Type} (op : HRes σ α) (t : σ × List String) : (spyOp op t).2.2 = t.2 := by
+  unfold spyOp; split; rfl
+
+theorem spy_hostOK (h : Host σ Obj) : HostOK (spy h) SpyPub := by
+  refine ⟨?_, ?_, ?_, ?_, ?_, ?_, ?_, ?_⟩
+  · intro a n hn t ht m hm
+    simp only [spy] at hm
+    simp only [List.mem_append, List.mem_singleton] at hm
+    rcases hm with hm | hm
+    · exact ht m hm
+    · rw [hm]; exact hn
+  all_goals
+    intros
+    rename_i t ht
+    intro m hm
+    simp only [spy, spyOp_snd] at hm
+    exact ht m hm
+
+/-! #### the evaluator's own log is faithful: it lists exactly the names the host was asked for, in order -/
+
+/-- the `reads` log and the spy's record agree -/
+def Faithful (s : ES (σ × List String) Obj) : Prop := s.reads.map (·.name) = s.hs.2
+
+def PresF {α : Type} (m : M (σ × List String) Obj α) : Prop := ∀ s, Faithful s → Faithful (m s).2
+
+theorem PresF.pure {α : Type} (a : α) : PresF (M.pure a : M (σ × List String) Obj α) := fun _ h => h
+theorem PresF.throw {α : Type} (e : Exc) : PresF (M.throw e : M (σ × List String) Obj α) := fun _ h => h
+
+theorem PresF.bind {α β : Type} {m : M (σ × List String) Obj α} {f : α → M (σ × List String) Obj β}
+    (hm : PresF m) (hf : ∀ a, PresF (f a)) : PresF (M.bind m f) := by
+  intro s h
+  have h1 := hm s h
+  unfold M.bind
+  split
+  · rename_i a s' heq; rw [heq] at h1; exact hf a s' h1
+  · rename_i e s' heq; rw [heq] at h1; exact h1
+
+theorem PresF.lift {α : Type} {op : HRes (σ × List String) α} (hop : ∀ t, (op t).2.2 = t.2) :
+    PresF (M.lift op : M (σ × List String) Obj α) := by
+  intro s h
+  unfold M.lift
+  simp only [Faithful] at h ⊢
+  rw [hop s.hs]; exact h
+
+theorem PresF.spyOp {α : Type} (op : HRes σ α) : PresF (M.lift (spyOp op) : M (σ × List String) Obj α) :=
+  PresF.lift (spyOp_snd op)
+
+theorem PresF.logResolved (n : String) : PresF (M.logResolved n : M (σ × List String) Obj Unit) := fun _ h => h
+
+/-- the unit "log the read, then ask the host": both records grow by the same name -/
+theorem PresF.readThenGetattr (h : Host σ Obj) (a : Obj) (n : String) (g : Bool) :
+    PresF (M.bind (M.logRead a n g) fun _ => M.lift ((spy h).getattr a n)) := by
+  intro s hs
+  simp only [M.bind, M.logRead, M.lift, spy]
+  simp only [Faithful, List.map_append, List.map_cons, List.map_nil] at hs ⊢
+  rw [hs]
+
+variable {h : Host σ Obj} {locals globals : Env Obj}
+
+theorem presF_getValue (v : SVal Obj) : PresF (getValue (spy h) locals globals v) := by
+  unfold getValue
+  split
+  · exact PresF.pure _
+  · exact PresF.pure _
+  · exact PresF.pure _
+  · exact PresF.pure _
+  · split
+    · exact PresF.bind (PresF.logResolved _) fun _ => PresF.pure _
+    · split
+      · exact PresF.bind (PresF.logResolved _) fun _ => PresF.pure _
+      · exact PresF.throw _
+  · exact PresF.throw _
+
+theorem presF_getValues (vs : List (SVal Obj)) : PresF (getValues (spy h) locals globals vs) := by
+  induction vs with
+  | nil => exact PresF.pure _
+  | cons v vs ih =>
+    unfold getValues
+    exact PresF.bind (presF_getValue v) fun _ => PresF.bind ih fun _ => PresF.pure _
+
+theorem presF_getMember (a : Obj) (m : SVal Obj) : PresF (getMember (spy h) a m) := by
+  unfold getMember
+  split
+  · split
+    · exact PresF.bind (PresF.spyOp _) fun _ => PresF.throw _
+    · split
+      · exact PresF.throw _
+      · split
+        · exact PresF.pure _
+        · split
+          · exact PresF.pure _
+          · exact PresF.readThenGetattr h _ _ _
+  · exact PresF.throw _
+  · rename_i o
+    refine PresF.bind (PresF.spyOp _) fun _ => ?_
+    -- (logRead; getattr) >>= throw, re-associated
+    intro s hs
+    have key := PresF.readThenGetattr h o "offset" false s hs
+    simp only [M.bind, M.logRead, M.lift, M.throw] at key ⊢
+    split <;> (rename_i heq; simp only [Prod.mk.injEq] at heq; obtain ⟨_, rfl⟩ := heq; exact key)
+
+theorem presF_expandArgs (es : List Bool) (vs : List (SVal Obj)) : PresF (expandArgs (spy h) locals globals es vs) := by
+  induction es generalizing vs with
+  | nil => unfold expandArgs; exact PresF.pure _
+  | cons e es ih =>
+    cases vs with
+    | nil => unfold expandArgs; exact PresF.pure _
+    | cons v vs =>
+      unfold expandArgs
+      split
+      · exact PresF.bind (presF_getValue v) fun _ => PresF.bind (ih vs) fun _ => PresF.pure _
+      · exact PresF.bind (ih vs) fun _ => PresF.pure _
+
+theorem presF_execute (spec : OpSpec) (args : List (SVal Obj)) : PresF (execute (spy h) spec args) := by
+  unfold execute
+  split
+  · exact PresF.throw _
+  · split
+    · exact presF_getMember _ _
+    · exact PresF.spyOp _
+    · exact PresF.spyOp _
+    · exact PresF.pure _
+    · exact PresF.spyOp _
+    · exact PresF.spyOp _
+    · exact PresF.bind (PresF.spyOp _) fun _ => PresF.pure _
+    · exact PresF.spyOp _
+    · exact PresF.bind (PresF.spyOp _) fun _ => PresF.pure _
+    · exact PresF.bind (PresF.spyOp _) fun _ => PresF.pure _
+    · exact PresF.pure _
+    · exact PresF.bind (PresF.spyOp _) fun _ => PresF.spyOp _
+    · exact PresF.throw _
+
+theorem presF_step (values : List (SVal Obj)) (t : Tok) : PresF (step (spy h) locals globals values t) := by
+  unfold step
+  split
+  · exact PresF.bind (presF_getValues _) fun _ => PresF.pure _
+  · exact PresF.bind (presF_expandArgs _ _) fun _ => PresF.bind (presF_execute _ _) fun _ => PresF.pure _
+  · exact PresF.pure _
+
+theorem presF_run (values : List (SVal Obj)) (ts : List Tok) : PresF (run (spy h) locals globals values ts) := by
+  induction ts generalizing values with
+  | nil => unfold run; exact PresF.pure _
+  | cons t ts ih => unfold run; exact PresF.bind (presF_step values t) fun vs => ih vs
+
+theorem presF_finish (values : List (SVal Obj)) : PresF (finish (spy h) locals globals values) := by
+  unfold finish
+  split
+  · split
+    · exact PresF.bind (presF_getValue _) fun _ => PresF.pure _
+    · exact PresF.pure _
+  · exact PresF.throw _
+
+theorem faithful_eval (tokens : List Tok) (s0 : σ) :
+    Faithful (eval (spy h) locals globals tokens (s0, [])).2 := by
+  unfold eval
+  apply PresF.bind (presF_run [] tokens) (fun vs => presF_finish vs)
+  rfl
+
+/-! #### erasure: the recording wrapper does not change what is computed -/
+
+/-- `s'` is `s` plus recorded names -/
+def Rel (s : ES σ Obj) (s' : ES (σ × List String) Obj) : Prop :=
+  s'.hs.1 = s.hs ∧ s'.reads = s.reads ∧ s'.resolved = s.resolved
+
+/-- `m'` (over `spy h`) simulates `m` (over `h`): same result, related states -/
+def Sim {α : Type} (m : M σ Obj α) (m' : M (σ × List String) Obj α) : Prop :=
+  ∀ s s', Rel s s' → (m s).1 = (m' s').1 ∧ Rel (m s).2 (m' s').2
+
+theorem Sim.pure {α : Type} (a : α) : Sim (M.pure a : M σ Obj α) (M.pure a) := fun _ _ hr => ⟨rfl, hr⟩
+theorem Sim.throw {α : Type} (e : Exc) : Sim (M.throw e : M σ Obj α) (M.throw e) := fun _ _ hr => ⟨rfl, hr⟩
+
+theorem Sim.bind {α β : Type} {m : M σ Obj α} {m' : M (σ × List String) Obj α}
+    {f : α → M σ Obj β} {f' : α → M (σ × List String) Obj β}
+    (hm : Sim m m') (hf : ∀ a, Sim (f a) (f' a)) : Sim (M.bind m f) (M.bind m' f') := by
+  intro s s' hr
+  have h1 := hm s s' hr
+  unfold M.bind
+  rcases hms : m s with ⟨r, t⟩
+  rcases hms' : m' s' with ⟨r', t'⟩
+  rw [hms, hms'] at h1
+  obtain ⟨h1a, h1b⟩ := h1
+  simp only at h1a
+  subst h1a
+  cases r with
+  | ok a => exact hf a t t' h1b
+  | error e => exact ⟨rfl, h1b⟩
+
+theorem Sim.spyOp {α : Type} (op : HRes σ α) : Sim (M.lift op : M σ Obj α) (M.lift (spyOp op)) := by
+  intro s s' hr
+  obtain ⟨h1, h2, h3⟩ := hr
+  simp [M.lift, GtModel.Expr.spyOp, h1, Rel, h2, h3]
+
+theorem Sim.getattr (h : Host σ Obj) (a : Obj) (n : String) :
+    Sim (M.lift (h.getattr a n) : M σ Obj Obj) (M.lift ((spy h).getattr a n)) := by
+  intro s s' hr
+  obtain ⟨h1, h2, h3⟩ := hr
+  simp [M.lift, spy, h1, Rel, h2, h3]
+
+theorem Sim.logRead (o : Obj) (n : String) (g : Bool) :
+    Sim (M.logRead o n g : M σ Obj Unit) (M.logRead o n g) := by
+  intro s s' hr
+  obtain ⟨h1, h2, h3⟩ := hr
+  simp [M.logRead, Rel, h1, h2, h3]
+
+theorem Sim.logResolved (n : String) : Sim (M.logResolved n : M σ Obj Unit) (M.logResolved n) := by
+  intro s s' hr
+  obtain ⟨h1, h2, h3⟩ := hr
+  simp [M.logResolved, Rel, h1, h2, h3]
+
+theorem sim_getValue (v : SVal Obj) : Sim (getValue h locals globals v) (getValue (spy h) locals globals v) := by
+  unfold getValue
+  split
+  · exact Sim.pure _
+  · exact Sim.pure _
+  · exact Sim.pure _
+  · exact Sim.pure _
+  · split
+    · exact Sim.bind (Sim.logResolved _) fun _ => Sim.pure _
+    · split
+      · exact Sim.bind (Sim.logResolved _) fun _ => Sim.pure _
+      · exact Sim.throw _
+  · exact Sim.throw _
+
+theorem sim_getValues (vs : List (SVal Obj)) :
+    Sim (getValues h locals globals vs) (getValues (spy h) locals globals vs) := by
+  induction vs with
+  | nil => exact Sim.pure _
+  | cons v vs ih =>
+    unfold getValues
+    exact Sim.bind (sim_getValue v) fun _ => Sim.bind ih fun _ => Sim.pure _
+
+@[simp] theorem spy_isReflective : (spy h).isReflective = h.isReflective := rfl
+@[simp] theorem spy_isStrType : (spy h).isStrType = h.isStrType := rfl
+@[simp] theorem spy_isStrInst : (spy h).isStrInst = h.isStrInst := rfl
+@[simp] theorem spy_safeFn : (spy h).safeFn = h.safeFn := rfl
+@[simp] theorem spy_mkPartial : (spy h).mkPartial = h.mkPartial := rfl
+
+set_option linter.unusedSimpArgs false in
+theorem sim_getMember (a : Obj) (m : SVal Obj) : Sim (getMember h a m) (getMember (spy h) a m) := by
+  unfold getMember
+  simp only [spy_isReflective, spy_isStrType, spy_isStrInst, spy_safeFn, spy_mkPartial]
+  split
+  · rename_i name _
+    by_cases hu : name.startsWith "_" = true
+    · simp only [hu, ↓reduceIte]
+      exact Sim.bind (Sim.spyOp _) fun _ => Sim.throw _
+    · simp only [hu, ↓reduceIte]
+      by_cases hr : h.isReflective a = true
+      · simp only [hr, ↓reduceIte]
+        exact Sim.throw _
+      · simp only [hr, ↓reduceIte]
+        by_cases h1 : (safeStrMethods.contains name && h.isStrType a) = true
+        · simp only [h1, ↓reduceIte]
+          exact Sim.pure _
+        · simp only [h1, ↓reduceIte]
+          by_cases h2 : (safeStrMethods.contains name && h.isStrInst a) = true
+          · simp only [h2, ↓reduceIte]
+            exact Sim.pure _
+          · simp only [h2, ↓reduceIte]
+            exact Sim.bind (Sim.logRead _ _ _) fun _ => Sim.getattr h _ _
+  · exact Sim.throw _
+  · exact Sim.bind (Sim.spyOp _) fun _ => Sim.bind (Sim.logRead _ _ _) fun _ =>
+      Sim.bind (Sim.getattr h _ _) fun _ => Sim.throw _
+
+theorem sim_expandArgs (es : List Bool) (vs : List (SVal Obj)) :
+    Sim (expandArgs h locals globals es vs) (expandArgs (spy h) locals globals es vs) := by
+  induction es generalizing vs with
+  | nil => unfold expandArgs; exact Sim.pure _
+  | cons e es ih =>
+    cases vs with
+    | nil => unfold expandArgs; exact Sim.pure _
+    | cons v vs =>
+      unfold expandArgs
+      split
+      · exact Sim.bind (sim_getValue v) fun _ => Sim.bind (ih vs) fun _ => Sim.pure _
+      · exact Sim.bind (ih vs) fun _ => Sim.pure _
+
+theorem sim_execute (spec : OpSpec) (args : List (SVal Obj)) :
+    Sim (execute h spec args) (execute (spy h) spec args) := by
+  unfold execute
+  split
+  · exact Sim.throw _
+  · split
+    · exact sim_getMember _ _
+    · exact Sim.spyOp _
+    · exact Sim.spyOp _
+    · exact Sim.pure _
+    · exact Sim.spyOp _
+    · exact Sim.spyOp _
+    · exact Sim.bind (Sim.spyOp _) fun _ => Sim.pure _
+    · exact Sim.spyOp _
+    · exact Sim.bind (Sim.spyOp _) fun _ => Sim.pure _
+    · exact Sim.bind (Sim.spyOp _) fun _ => Sim.pure _
+    · exact Sim.pure _
+    · exact Sim.bind (Sim.spyOp _) fun _ => Sim.spyOp _
+    · exact Sim.throw _
+
+theorem sim_step (values : List (SVal Obj)) (t : Tok) :
+    Sim (step h locals globals values t) (step (spy h) locals globals values t) := by
+  unfold step
+  split
+  · exact Sim.bind (sim_getValues _) fun _ => Sim.pure _
+  · exact Sim.bind (sim_expandArgs _ _) fun _ => Sim.bind (sim_execute _ _) fun _ => Sim.pure _
+  · exact Sim.pure _
+
+theorem sim_run (values : List (SVal Obj)) (ts : List Tok) :
+    Sim (run h locals globals values ts) (run (spy h) locals globals values ts) := by
+  induction ts generalizing values with
+  | nil => unfold run; exact Sim.pure _
+  | cons t ts ih => unfold run; exact Sim.bind (sim_step values t) fun vs => ih vs
+
+theorem sim_finish (values : List (SVal Obj)) :
+    Sim (finish h locals globals values) (finish (spy h) locals globals values) := by
+  unfold finish
+  split
+  · split
+    · exact Sim.bind (sim_getValue _) fun _ => Sim.pure _
+    · exact Sim.pure _
+  · exact Sim.throw _
+
+/-- `eval` over the recording wrapper computes the same result, the same host state and the same evaluator log
+    as `eval` over the host itself. -/
+theorem sim_eval (tokens : List Tok) (s0 : σ) (rec0 : List String) :
+    (eval h locals globals tokens s0).1 = (eval (spy h) locals globals tokens (s0, rec0)).1 ∧
+    Rel (eval h locals globals tokens s0).2 (eval (spy h) locals globals tokens (s0, rec0)).2 := by
+  unfold eval
+  exact Sim.bind (sim_run [] tokens) (fun vs => sim_finish vs) _ _ ⟨rfl, rfl, rfl⟩
 
 end GtModel.Expr
